@@ -1,0 +1,27 @@
+//! Observation hook for external runtime monitors (cargo feature
+//! `verif-hooks`, off by default).
+
+use aiken_lang::test_framework::Test;
+use std::cell::RefCell;
+
+type Callback = Box<dyn Fn(&[Test])>;
+
+thread_local! {
+    static PRE_PARALLEL: RefCell<Option<Callback>> = const { RefCell::new(None) };
+}
+
+/// Register (or clear) the callback invoked with the exact set of tests that
+/// is about to be handed to the parallel runner.
+pub fn set_pre_parallel(callback: Option<Callback>) {
+    PRE_PARALLEL.with(|c| *c.borrow_mut() = callback);
+}
+
+pub(crate) fn pre_parallel(tests: &[Test]) {
+    PRE_PARALLEL.with(|c| {
+        if let Ok(c) = c.try_borrow() {
+            if let Some(callback) = c.as_ref() {
+                callback(tests);
+            }
+        }
+    })
+}
